@@ -36,9 +36,18 @@ Print Assumptions c15_roundtrip_without_uniform_flags_refuted.
    the assignment through the name / alias tables (identity when there is no entry) and the
    confidence (conf = 0: bootstrapping_probability, 1: avg_correlation) rounded to four decimals --
    unless the level's readable name contains 'label', 'name', 'alias' or 'assignment' (categ):
-   then the value is written unrounded (finding F12). *)
+   then the value is written unrounded (finding F12).
+   A column is named after the READABLE level name rl = level_to_name(level) (blob_to_df builds the
+   column names from it), so the statement needs the readable names of the hierarchy to be pairwise
+   distinct: TaxonomyTree accepts a hierarchy_mapper that sends two levels to one name, and then the
+   later level overwrites the columns of the earlier (c15_csv_duplicate_readable_level_refuted, F31).
+   The numbers of the model are exact fractions: a NaN confidence is outside it.  A probability is a
+   ratio of vote counts, never NaN; avg_correlation is NaN only when the expression data hold a NaN
+   (the constant-row convention of distance_utils gives 0, not NaN); the real writer prints an empty
+   field for it (harness: c15 nan stream). *)
 Theorem c15_csv_rows : forall nm hier meta algo conf sticky categ b c,
   (conf < 2)%nat ->
+  NoDup (map (level_to_name nm) hier) ->
   blob_to_csv nm hier meta algo conf sticky categ b = Ok c ->
   v_comments c = csv_header nm hier meta algo /\
   length (v_rows c) = length b /\
@@ -47,14 +56,33 @@ Theorem c15_csv_rows : forall nm hier meta algo conf sticky categ b c,
     csv_get c row KId = Some (CName (c_id cl)) /\
     forall j level l,
       nth_error hier j = Some level -> nth_error (c_levels cl) j = Some l ->
-      csv_get c row (KLabel j) = Some (CName (l_assign l)) /\
-      csv_get c row (KName j) = Some (CName (label_to_name nm level (l_assign l) false)) /\
+      let rl := level_to_name nm level in
+      csv_get c row (KLabel rl) = Some (CName (l_assign l)) /\
+      csv_get c row (KName rl) = Some (CName (label_to_name nm level (l_assign l) false)) /\
       (S j = length hier ->
-         csv_get c row (KAlias j) = Some (CName (label_to_name nm level (l_assign l) true))) /\
-      csv_get c row (KField j conf) =
-        Some (if nth j categ false then CNumFull (conf_value conf l) else CNum4 (fmt4 (conf_value conf l))).
+         csv_get c row (KAlias rl) = Some (CName (label_to_name nm level (l_assign l) true))) /\
+      csv_get c row (KField rl conf) =
+        Some (if zmem rl categ then CNumFull (conf_value conf l) else CNum4 (fmt4 (conf_value conf l))).
 Proof. exact csv_rows. Qed.
 Print Assumptions c15_csv_rows.
+
+(* F31 -- the NoDup hypothesis is necessary, and the real code behaves like this: hierarchy [7; 8],
+   hierarchy_mapper {7: 70, 8: 70} (accepted by TaxonomyTree); one cell assigned to node 1 (p = 0.37)
+   at level 7 and node 11 (p = 0.25) at level 8.  The CSV has the five columns cell_id, 70_label,
+   70_name, 70_bootstrapping_probability, 70_alias (the alias column AFTER the confidence: the keys of a
+   Python dict keep the position of their first insertion) and the single row 100, 11, 11, 0.2500, 11:
+   level 7 (node 1, 0.37) is gone. *)
+Theorem c15_csv_duplicate_readable_level_refuted :
+  exists c row,
+    map (level_to_name dup_nm) [7; 8] = [70; 70] /\
+    blob_to_csv dup_nm [7; 8] None 0 0 [] [] dup_blob = Ok c /\
+    v_cols c = [KId; KLabel 70; KName 70; KField 70 0; KAlias 70] /\
+    v_rows c = [row] /\ row = [CName 100; CName 11; CName 11; CNum4 2500; CName 11] /\
+    nth_error [7; 8] 0 = Some 7 /\
+    csv_get c row (KLabel (level_to_name dup_nm 7)) <> Some (CName 1) /\
+    csv_get c row (KField (level_to_name dup_nm 7) 0) <> Some (CNum4 (fmt4 (37, 100))).
+Proof. exact csv_duplicate_readable_level. Qed.
+Print Assumptions c15_csv_duplicate_readable_level_refuted.
 
 (* "to four decimals": the printed number is within half a unit of the fourth decimal of the
    JSON value n/d *)
@@ -68,7 +96,7 @@ Print Assumptions c15_four_decimals.
 Theorem c15_csv_confidence_four_decimals_refuted :
   exists nm hier conf sticky categ b c row,
     blob_to_csv nm hier None 0 conf sticky categ b = Ok c /\ nth_error (v_rows c) 0 = Some row /\
-    csv_get c row (KField 0 conf) = Some (CNumFull (1, 3)).
+    csv_get c row (KField 7 conf) = Some (CNumFull (1, 3)).
 Proof. exact csv_confidence_not_rounded_on_categorical_level. Qed.
 Print Assumptions c15_csv_confidence_four_decimals_refuted.
 
@@ -106,11 +134,15 @@ Example c15_example_roundtrip :
 Proof. vm_compute. reflexivity. Qed.
 Example c15_example_csv :
   exists c, blob_to_csv (mkNaming (Some [(7, 70)]) (Some [(8, [(11, (Some 110, None))])])) [7; 8] (Some 5) 2 0
-                        [false; false] [false; false] ex_blob = Ok c /\
-            v_cols c = [KId; KLabel 0; KName 0; KField 0 0; KLabel 1; KName 1; KAlias 1; KField 1 0] /\
+                        [] [] ex_blob = Ok c /\
+            NoDup (map (level_to_name (mkNaming (Some [(7, 70)]) None)) [7; 8]) /\
+            v_cols c = [KId; KLabel 70; KName 70; KField 70 0; KLabel 8; KName 8; KAlias 8; KField 8 0] /\
             nth_error (v_rows c) 0 =
               Some [CName 100; CName 1; CName 1; CNum4 3700; CName 11; CName 110; CName 11; CNum4 3700].
-Proof. eexists. vm_compute. repeat split; reflexivity. Qed.
+Proof.
+  eexists. split; [vm_compute; reflexivity|]. split; [|split; vm_compute; reflexivity].
+  vm_compute. repeat constructor; cbn; intuition discriminate.
+Qed.
 Example c15_example_fmt4 : fmt4 (3, 32) = 938 /\ fmt4 (1, 32) = 312 /\ fmt4 (-1, 10000000) = 0.
 Proof. vm_compute. repeat split; reflexivity. Qed.
 Example c15_example_tree :
